@@ -141,6 +141,8 @@ CONTRACTS.append(dict(file=_BB, anchor=r"pub fn set\(&mut self, pos: Pos\)", att
     "kani::ensures(|_| self.0 == old(self.0) | (1u64 << (pos as u8)))", "kani::modifies(self)"]))
 CONTRACTS.append(dict(file=_BB, anchor=r"pub fn clear\(&mut self, pos: Pos\)", attrs=[
     "kani::ensures(|_| self.0 == old(self.0) & !(1u64 << (pos as u8)))", "kani::modifies(self)"]))
+if os.environ.get("VERIF_NO_BB_CONTRACTS"):
+    CONTRACTS[:] = [c for c in CONTRACTS if c["file"] != _BB]
 _c18 = [
  ("ctor", "c18_ctor", "from_pos/from_file/from_rank/empty/from_u64/to_u64/contains/From<Pos|File|Rank|u64|Option<T>>: membership of every square q equals q==p / file(q)==f / rank(q)==r / bit q", ["BitBoard::from_pos", "BitBoard::from_file", "BitBoard::from_rank", "BitBoard::empty", "BitBoard::from_u64", "BitBoard::to_u64", "BitBoard::contains", "From<Pos|File|Rank|u64|Option<T>> for BitBoard"], {}),
  ("setops", "c18_setops", "or and xor diff not, operators | & ^ - ! |= &= ^= -=, with cleared set clear, -Pos, -=Pos, ==: square-wise boolean law for every q, all pairs of boards", ["BitBoard::or", "BitBoard::and", "BitBoard::xor", "BitBoard::diff", "BitBoard::not", "ops.rs operator impls", "BitBoard::with", "BitBoard::cleared", "BitBoard::set", "BitBoard::clear"], {}),
@@ -401,11 +403,11 @@ _MKSTUBS = _LK5 + ["Board::xor -> contract stub (C04.xor)", "BitBoard::pop -> on
 for k, d in _kinds:
     ob("C02.place." + k, ["C02"], "chess-movegen", "kani_verif_c02::c02_place_" + k, kind="complete", flags="full", timeout=1800, mem_gb=5, stubs=_MKSTUBS, functions=_MK,
        contract="{one king each, <=16 per side, rights only with king+rook home, e.p. marker valid, no back-rank pawns, clocks < 65535, mv pseudo-legal of kind: %s} move_unchecked_into(mv, out) {eight sets, side to move, castling rights, e.p. marker, half-move clock, full-move number of out == apply(view(self), mv); self unchanged}" % d)
-    ob("C04.hash." + k, ["C04", "C02"], "chess-movegen", "kani_verif_c02::c02_hash_" + k, kind="complete", flags="full", timeout=1800, mem_gb=5, stubs=_MKSTUBS, functions=_MK + ["Board::xor"],
+    ob("C04.hash." + k, ["C04"], "chess-movegen", "kani_verif_c02::c02_hash_" + k, kind="complete", flags="full", timeout=1800, mem_gb=5, stubs=_MKSTUBS, functions=_MK + ["Board::xor"],
        contract="incremental hash, delta form, kind %s: out.zobrist == self.zobrist ^ keys of exactly the (square, piece, colour) triples the rules change (mover off/on, captured piece, e.p. victim, promotion swap, castling rook)" % d)
-    ob("C02.cache." + k, ["C03", "C02"], "chess-movegen", "kani_verif_c02::c02_cache_" + k, kind="complete", flags="full", timeout=1800, mem_gb=5, stubs=_MKSTUBS, functions=_MK,
+    ob("C02.cache." + k, ["C03"], "chess-movegen", "kani_verif_c02::c02_cache_" + k, kind="complete", flags="full", timeout=1800, mem_gb=5, stubs=_MKSTUBS, functions=_MK,
        contract="incremental check/pin sets, kind %s, foreach-loop body: re-scan ranges over exactly the successor's pinner set; for an ARBITRARY member: out.checkers = leaper checkers of the successor + {s} iff nothing between, out.pinned = the single blocker (with C03.pin_lemma: == from-scratch spec of the successor)" % d)
-ob("C02.cache.loop2", ["C03", "C02"], "chess-movegen", "kani_verif_c02::c02_cache_loop2", kind="bounded", bound="successor has <= 2 sliders aligned with the enemy king (loop skeleton)", flags="full", timeout=3600, mem_gb=8, stubs=_LK5 + ["Board::xor -> contract stub (C04.xor)"], functions=_MK,
+ob("C02.cache.loop2", ["C03", "C02"], "chess-movegen", "kani_verif_c02::c02_cache_loop2", tier="thorough", kind="bounded", bound="successor has <= 2 sliders aligned with the enemy king (loop skeleton)", flags="full", timeout=3600, mem_gb=8, stubs=_LK5 + ["Board::xor -> contract stub (C04.xor)"], functions=_MK,
    contract="real iterator, every move kind: out.checkers/out.pinned == from-scratch spec of the successor at every square; successor position and hash delta as well")
 ob("C02.rights_table", ["C02", "C07"], "chess-movegen", "kani_verif_c02::c02_rights_table", kind="complete", flags="full", timeout=600, mem_gb=2, functions=["CastleRights::remove_for_sq", "CastleRights::to_index", "CastleRights::contains", "CastleRights::with"],
    contract="remove_for_sq(colour, sq) for all 16 x 2 x 64 inputs clears exactly the rights whose king or rook home square is sq for that colour; nibble stays < 16")
@@ -434,25 +436,25 @@ _LKM = ["chess_lookup::between", "chess_lookup::line", "chess_lookup::knight_mov
 _INV = "{representation invariant: valid position (one king each, <=16, rights/e.p. consistent, side not to move not in check, no back-rank pawns), cached checkers/pinned == spec}"
 for t, T in (("knight", "Knight"), ("bishop", "Bishop"), ("rook", "Rook"), ("queen", "Queen")):
     for st, n in (("nocheck", 0), ("check", 1)):
-        ob("C01.%s.%s.body" % (t, st), ["C01"], "chess-movegen", _PC + "c01_%s_%s_body" % (t, st), kind="complete", flags="func", timeout=2400, mem_gb=6,
+        ob("C01.%s.%s.body" % (t, st), ["C01"], "chess-movegen", _PC + "c01_%s_%s_body" % (t, st), kind="complete", flags="func", timeout=2400, mem_gb=6, part=n,
            stubs=_LKM + ["BitBoard::pop -> one-shot abstraction (piece loops)"], functions=["<%s as PieceType>::legals::<%s>" % (T, "IN_CHECK" if n else "NO_CHECK"), "%s::pseudo_legals" % T, "check_mask", "Board::king_sq"],
            contract=_INV + " with %d checker(s), any destination mask: for an ARBITRARY own %s picked by each of the two loops and EVERY destination d: the generated entries contain (src,d) exactly once iff legal(P,(src,d)) [make the move, test the king] and d in mask; no entry is empty, outside the mask or for a foreign square; at most one entry per loop body" % (n, t))
-ob("C01.knight.skipped", ["C01"], "chess-movegen", _PC + "c01_knight_skipped", kind="complete", flags="func", timeout=2400, mem_gb=6, functions=["(loop range) Knight: CAN_MOVE_IF_PINNED = false"],
+ob("C01.knight.skipped", ["C01"], "chess-movegen", _PC + "c01_knight_skipped", kind="complete", flags="func", timeout=2400, mem_gb=6, part=0, functions=["(loop range) Knight: CAN_MOVE_IF_PINNED = false"],
    contract=_INV + ": a pinned knight (never reached by the loops) has no legal move")
 for t, h in (("bishop", "b"), ("rook", "r"), ("queen", "q")):
-    ob("C01.%s.skipped" % t, ["C01"], "chess-movegen", _PC + "c01_slider_skipped_" + h, kind="complete", flags="func", timeout=2400, mem_gb=6, functions=["(loop range) PieceType::legals: pinned loop skipped when IS_IN_CHECK"],
+    ob("C01.%s.skipped" % t, ["C01"], "chess-movegen", _PC + "c01_slider_skipped_" + h, kind="complete", flags="func", timeout=2400, mem_gb=6, part=1, functions=["(loop range) PieceType::legals: pinned loop skipped when IS_IN_CHECK"],
        contract=_INV + " with 1 checker: a pinned %s (second loop skipped while in check) has no legal move" % t)
-ob("C01.pawn.skipped", ["C01"], "chess-movegen", _PC + "c01_pawn_skipped", kind="complete", flags="func", timeout=2400, mem_gb=6, functions=["(loop range) Pawn::legals: pinned loop skipped when IS_IN_CHECK"],
+ob("C01.pawn.skipped", ["C01"], "chess-movegen", _PC + "c01_pawn_skipped", kind="complete", flags="func", timeout=2400, mem_gb=6, part=1, functions=["(loop range) Pawn::legals: pinned loop skipped when IS_IN_CHECK"],
    contract=_INV + " with 1 checker: a pinned pawn has no legal non-en-passant move ... (query over every destination)")
 for st, n in (("nocheck", 0), ("check", 1)):
-    ob("C01.pawn.%s.body" % st, ["C01", "C10"], "chess-movegen", _PC + "c01_pawn_%s_body" % st, kind="complete", flags="func", timeout=3000, mem_gb=8,
+    ob("C01.pawn.%s.body" % st, ["C01"], "chess-movegen", _PC + "c01_pawn_%s_body" % st, kind="complete", flags="func", timeout=3000, mem_gb=8, part=n,
        stubs=["chess_lookup::between", "chess_lookup::line", "chess_lookup::pawn_moves", "chess_lookup::rook_moves", "chess_lookup::bishop_moves", "BitBoard::pop -> one-shot abstraction (three pawn loops incl. en passant)"],
        functions=["<Pawn as PieceType>::legals::<%s>" % ("IN_CHECK" if n else "NO_CHECK"), "Pawn::pseudo_legals", "check_mask"],
        contract=_INV + " with %d checker(s), any mask, every e.p. file or none: for an ARBITRARY pawn picked by each of the three loops (unpinned, pinned, en-passant capturers) and EVERY destination d and promotion choice: generated exactly once iff legal and masked (en passant decided by make-move: both pawns leave, king tested); promotion flag iff the pawn stands on its seventh rank" % n)
 ob("C01.king_position", ["C01", "C06"], "chess-movegen", _PC + "c01_king_position", kind="complete", flags="func", timeout=2400, mem_gb=6, stubs=_LK5 + ["chess_lookup::king_moves"],
    functions=["Board::is_legal_king_position"], contract="{one king each, <= 16 per side} is_legal_king_position(dest) == dest is not attacked by the opponent once the mover's king is lifted off the board; all boards x all 64 squares (real 16-fold slider loop)")
 for st in ("nocheck", "check"):
-    ob("C01.king." + st, ["C01"], "chess-movegen", _PC + "c01_king_" + st, kind="complete", flags="func", timeout=2400, mem_gb=6, stubs=["chess_lookup::king_moves", "Board::is_legal_king_position -> contract stub (C01.king_position)"],
+    ob("C01.king." + st, ["C01"], "chess-movegen", _PC + "c01_king_" + st, kind="complete", flags="func", timeout=2400, mem_gb=6, part=(0 if st == "nocheck" else 1), stubs=["chess_lookup::king_moves", "Board::is_legal_king_position -> contract stub (C01.king_position)"],
        functions=["King::king_legals", "King::pseudo_legals"],
        contract="{one king each, <=16, rights consistent, side not to move not in check, checkers non-empty <=> in check} king_legals, %s, all 16 rights values, any mask: for EVERY destination d: (king,d) generated iff legal(P,(king,d)) (and d in mask for ordinary steps); castling: right present, path empty, king not in check, transit and target squares not attacked; at most one entry, never empty" % st)
 ob("C01.check_mask", ["C01", "C07"], "chess-movegen", _PC + "c01_check_mask", kind="complete", flags="func", timeout=2400, mem_gb=6, stubs=["chess_lookup::between"],
